@@ -295,6 +295,22 @@ def evaluate(case):
                     bad("transform-list", {"fam": "list1", "ops": [[a, b] for a, b in ops], "style": st}, why)
                 if sample is None and len(ops) >= 2:
                     sample = s
+    elif fam == "scaled":
+        # the same lattice with the linear part multiplied by 2^k (exact in binary floating point and in Fractions):
+        # determinants from 2^-120 to 2^+80 - whether a matrix is invertible does not depend on the unit of length
+        vals = L_SINGLE
+        k = case["k"]
+        f = Fr(2) ** k
+        for lin in itertools.product(vals, repeat=4):
+            for tr in ((Fr(0), Fr(0)), (Fr(3), Fr(-2))):
+                m = tuple(x * f for x in lin) + tr
+                n += 1
+                why = judge_single(m, Affine2D)
+                outs["ok" if not why else "bad"] += 1
+                if R2.det(m) != 0:
+                    nts.add(core.h64(repr(m)))
+                if why:
+                    bad("algebra-single", {"fam": "single1", "m": [str(x) for x in m]}, f"{m}: " + "; ".join(why))
     elif fam == "single":
         vals = L_SINGLE
         a0, b0 = vals[case["i"]], vals[case["j"]]
@@ -404,6 +420,8 @@ def cases(tier, seed):
     if tier == "thorough":
         for i in range(len(OPV["small"])):
             yield {"fam": "lists", "vset": "small", "first": i, "len": 5, "styles": styles[:2]}
+    for k in ([-60, -30, -27, 30] if tier == "quick" else [-500, -200, -60, -40, -30, -27, -26, -20, -10, 10, 20, 30, 40, 200, 500]):
+        yield {"fam": "scaled", "k": k}
     for i in range(6):
         for j in range(6):
             yield {"fam": "single", "i": i, "j": j}
@@ -429,7 +447,7 @@ def run(run):
         "E2: (a) transform lists = products of per-operation variants (matrix/translate 1-2/scale 1-2/rotate 1|3/skewX/skewY over "
         "{0,1,-2,.5,30,90,1e1}) x 6 separator styles, length 1-3 (quick) / 1-5 (thorough), vs the specification product of R2 "
         "(exact equality for rational operations); (b) real Affine2D over exact int/Fraction entries: all 6^6 matrices over "
-        "{-2,-1,0,1/2,1,3} (det, map_point, inverse, M.M^-1=I, degenerate rule, tostring/fromstring), all ordered pairs over {-1,0,2}^6 "
+        "{-2,-1,0,1/2,1,3} (det, map_point, inverse, M.M^-1=I, degenerate rule, tostring/fromstring), the same with the linear part scaled by 2^k (k in -60..30; thorough -500..500), all ordered pairs over {-1,0,2}^6 "
         "(quick) / {-1,0,1/2,2}^6 (thorough) for compose order, triples of a sparse set for associativity; (c) rect_to_rect for all src/dst "
         "pairs of a rectangle lattice x 10 alignments x {default, meet, slice}: spec algorithm and geometric post-conditions in exact arithmetic; "
         "(d) decompositions on the non-degenerate float lattice. Non-trivial: list with >1 op or an angle op / non-degenerate matrix / "
